@@ -514,7 +514,7 @@ func genProm(tier string, seed int64, only string) []*Case {
 			id++
 			cases = append(cases, newCase(id, "kind", "prom", "pipe", pipe, "lic", lic, "mode", mode, "conc", conc,
 				"chain", chain, "sub", "7", "cut", cut, "srcs", srcs))
-			if lic == "on" && pipe == "ee" && (thorough || id%7 == 0) {
+			if lic == "on" && pipe == "ee" && ((thorough && id%3 == 0) || (!thorough && id%7 == 0)) {
 				id++
 				cases = append(cases, newCase(id, "kind", "prom", "pipe", pipe, "lic", lic, "mode", mode, "conc", conc,
 					"chain", chain, "sub", "7", "cut", cut, "srcs", srcs, "scrape0", "1"))
